@@ -502,6 +502,19 @@ class WsgiApplication(HttpBase):
         try:
             self.get_out_string(p_ctx)
 
+        except Fault as e:
+            # raised by user code that runs while the response is built (the
+            # body of a generator method): report it as it is, like a Fault
+            # raised by a plain function.
+            p_ctx.out_error = e
+            p_ctx.out_document = None
+            p_ctx.out_string = None
+            p_ctx.transport.resp_code = None
+            p_ctx.fire_event('method_exception_object')
+
+            return self.handle_error(p_ctx, others, p_ctx.out_error,
+                                                                 start_response)
+
         except Exception as e:
             logger.exception(e)
             p_ctx.out_error = Fault('Server', get_fault_string_from_exception(e))
